@@ -11,6 +11,9 @@ os.rmdir(wt)
 def run(cmd, cwd=wt, timeout=1500):
     p = subprocess.run(cmd, cwd=cwd, env=env, shell=True, stdout=subprocess.PIPE, stderr=subprocess.STDOUT, text=True, timeout=timeout)
     return p.returncode, p.stdout
+import re
+names = re.findall(r"^func (Test\w+)\(", open(demo).read(), re.M)
+runre = "'^(" + "|".join(names) + ")$'" if names else "."
 ok = True
 try:
     rc, out = run(f"git -C /repo worktree add --detach {wt}", cwd="/")
@@ -25,12 +28,14 @@ try:
     if not suite_ok: print(out[-1500:])
     dst = os.path.join(wt, pkgdir, os.path.basename(demo))
     shutil.copy(demo, dst)
-    rc, out = run(f"go test -vet=off -count=1 -race ./{pkgdir} 2>&1 | tail -30")
+    rc, out = run(f"go test -vet=off -count=1 -race -run {runre} ./{pkgdir} 2>&1 | tail -30")
+    if "FAIL" not in out:  # sync.Pool behaves differently under -race: try the plain build too
+        rc, out = run(f"go test -vet=off -count=1 -run {runre} ./{pkgdir} 2>&1 | tail -30")
     demo_fails = "FAIL" in out
     print("3. demonstration fails with the patch:", demo_fails); ok &= demo_fails
     if demo_fails: print("   ", "\n    ".join(out.strip().splitlines()[:12]))
     run(f"git apply -R {patch}")
-    rc, out = run(f"go test -vet=off -count=1 -race ./{pkgdir} 2>&1 | tail -30")
+    rc, out = run(f"go test -vet=off -count=1 -race -run {runre} ./{pkgdir} 2>&1 | tail -30")
     demo_passes = "FAIL" not in out and rc == 0
     print("4. demonstration passes on the clean tree:", demo_passes); ok &= demo_passes
     if not demo_passes: print(out[-1500:])
